@@ -212,6 +212,18 @@ func verifEqSym(a, b Object) bool { return Equals(a, b) == Equals(b, a) }
 //@ requires scalar(a) && scalar(b)
 //@ ensures[C15.eq.sym] result
 
+// == between a string and a byte_slice gives the same answer in both operand orders (KF-61: String.Equals accepted
+// strings only). Mode int: string(bs) is an uninterpreted function of the bytes (bytestr), string([]byte(s)) == s,
+// and bytes.Compare answers 0 exactly for equal contents (assumed, documented).
+func verifEqSymStrBytes(s *String, b *ByteSlice) bool { return Equals(s, b) == Equals(b, s) }
+
+//@ func verifEqSymStrBytes
+//@ dispatch *String *ByteSlice
+//@ props C15
+//@ expand Equals
+//@ requires s != nil && b != nil
+//@ ensures[C15.eq.sym.strbytes] result
+
 func verifEqTrans(a, b, c Object) bool { return !(Equals(a, b) && Equals(b, c)) || Equals(a, c) }
 
 //@ func verifEqTrans
